@@ -239,10 +239,11 @@ ParentsOf(o, r) == [i \in DOMAIN r |-> [c \in {d \in Classes : KidQ(o, r, i, d) 
                         IF o[KidQ(o, r, i, c)].parent = Container(o, r, i, c) THEN "own"
                         ELSE IF o[KidQ(o, r, i, c)].parent = 0 THEN "none" ELSE "foreign"]]
 
-Finish(a) == /\ ops' = ops + 1
-             /\ hist' = Append(hist, a)
-             /\ last' = a @@ [expect |-> ExpectAll(val'), asbuilt |-> AsBuiltAll(obj', roots'),
+Finish(a) == LET full == a @@ [expect |-> ExpectAll(val'), asbuilt |-> AsBuiltAll(obj', roots'),
                               parents |-> ParentsOf(obj', roots')]
+             IN  /\ ops' = ops + 1
+                 /\ hist' = Append(hist, full)
+                 /\ last' = full
 
 DeepCopy(i) ==
     /\ Len(val) < MaxTrees
